@@ -213,6 +213,9 @@ func (b Bytes) Without(value Value) Set {
 				}
 				return None
 			}
+			if i == 0 {
+				return Bytes{b: b.b[1:], offset: b.offset + 1}
+			}
 			return newGenericSetFromSet(b).Without(value)
 		}
 	}
